@@ -1061,6 +1061,11 @@ class Unit:
         text = re.sub(r'^[ \t]*#\[allow[^\]]*\]\s*\n', '', text, flags=re.M)
         if not re.match(r'pub\b', text):
             text = 'pub ' + text
+        # R28: `&str` in the type of a const item means `&'static str` (lifetime elision in const items); Verus wants it spelled out
+        m = re.match(r'(pub\s+const\s+\w+\s*:\s*)([^=]*?)(\s*=)', text)
+        if m and re.search(r"&\s*str\b", m.group(2)):
+            text = m.group(1) + re.sub(r"&\s*str\b", "&'static str", m.group(2)) + text[m.end(2):]
+            self.log.append({'rule': 'R28', 'where': name, 'what': "&str -> &'static str in the type of a const item"})
         self.log.append({'rule': 'const', 'name': name, 'file': rel})
         return text
 
